@@ -69,6 +69,7 @@ type histIn struct {
 	Warm    bool       `json:"warm"` // after the basic world, run the legitimate traffic of warm() before the calls
 	Audit   bool       `json:"audit"`
 	Zero    bool       `json:"zero"` // service_mgr proposals use the ZeroPermission strategy
+	ZSwitch bool       `json:"zswitch"` // proposals of several modules are opened under the default strategy, then governance switches every module to ZeroPermission
 	Surface bool       `json:"surface"`
 	Calls   []callSpec `json:"calls"`
 }
@@ -90,6 +91,8 @@ type world struct {
 	nonce   map[string]uint64
 	p0      string
 	typeOf  map[string]string // Go type name -> contract address string
+	self    string            // $NAME of the sender of the call being built
+	extra   map[string]string // further placeholders ($PA, $PN, $PR)
 	log     []string
 	hasHook bool
 }
@@ -240,7 +243,36 @@ func buildWorld(in *histIn) (w *world, err error) {
 	if in.Warm && !in.Zero {
 		w.warm()
 	}
+	if in.ZSwitch && !in.Zero {
+		w.zswitch()
+	}
 	return w, nil
+}
+
+// zswitch: open proposals of the appchain, node and role modules (the service module's $P0 is open already),
+// all submitted under the default strategy; then the governance admins switch every module to the supported
+// ZeroPermission strategy through a real UpdateAllProposalStrategy proposal.  $PA / $PN / $PR name the open proposals.
+func (w *world) zswitch() {
+	w.keys["$ZNEW"] = hx.Key(60)
+	w.keys["$ZROLE"] = hx.Key(61)
+	for _, n := range []string{"$ZNEW", "$ZROLE"} {
+		w.names[strings.ToLower(strings.TrimPrefix(w.addr(n), "0x"))] = n
+	}
+	w.extra = map[string]string{}
+	ret := w.must("RegisterAppchain chainZ", w.exec("$ZNEW", constant.AppchainMgrContractAddr.Address(), "RegisterAppchain", pb.String("chainZ"), pb.String("name-chainZ"), pb.Bytes([]byte("pk")),
+		pb.String("ETH"), pb.Bytes([]byte("t")), pb.String("0x857133c5C69e6Ce66F7AD46F200B9B3573e77582"), pb.String("d"), pb.String(validator.HappyRuleAddr), pb.String(""),
+		pb.String(w.addr("$ZNEW")), pb.String("r")))
+	w.extra["$PA"] = proposalOf(ret)
+	ret = w.must("LogoutNode", w.exec("$GOV0", constant.NodeManagerContractAddr.Address(), "LogoutNode", pb.String(w.addr("$NODE")), pb.String("r")))
+	w.extra["$PN"] = proposalOf(ret)
+	ret = w.must("RegisterRole", w.exec("$GOV0", constant.RoleContractAddr.Address(), "RegisterRole", pb.String(w.addr("$ZROLE")), pb.String("governanceAdmin"), pb.String(""), pb.String("r")))
+	w.extra["$PR"] = proposalOf(ret)
+	ret = w.must("UpdateAllProposalStrategy", w.exec("$GOV0", constant.ProposalStrategyMgrContractAddr.Address(), "UpdateAllProposalStrategy", pb.String("ZeroPermission"), pb.String(""), pb.String("r")))
+	w.decide(proposalOf(ret), true)
+	ok, data := w.c.View(constant.ProposalStrategyMgrContractAddr.Address(), "GetProposalStrategy", pb.String("appchain_mgr"))
+	if !ok || !strings.Contains(string(data), "ZeroPermission") {
+		panic("strategy switch did not take effect: " + string(data))
+	}
 }
 
 func (w *world) ibtp(ib *pb.IBTP, what string) {
@@ -316,13 +348,46 @@ const warmCodeAddr = "0x00000000000000000000000000000000000d0001"
 // ----------------------------------------------------------------------------------------
 // arguments
 
+// spell writes an account in another hex spelling of the same 20 bytes
+func spell(addr, how string) string {
+	body := strings.TrimPrefix(addr, "0x")
+	switch how {
+	case "lower":
+		return "0x" + strings.ToLower(body)
+	case "upper":
+		return "0x" + strings.ToUpper(body)
+	case "bare":
+		return body
+	case "barelower":
+		return strings.ToLower(body)
+	}
+	return addr
+}
+
 func (w *world) subst(s string) string {
 	if !strings.Contains(s, "$") && !strings.Contains(s, "@") {
 		return s
 	}
+	if strings.Contains(s, "$SELF") && w.self != "" {
+		s = strings.ReplaceAll(s, "$SELF", w.self)
+	}
+	if strings.Contains(s, "~") {
+		for n := range w.keys {
+			for _, how := range []string{"barelower", "lower", "upper", "bare"} {
+				if strings.Contains(s, n+"~"+how) {
+					s = strings.ReplaceAll(s, n+"~"+how, spell(w.addr(n), how))
+				}
+			}
+		}
+	}
 	for n := range w.keys {
 		if strings.Contains(s, n) {
 			s = strings.ReplaceAll(s, n, w.addr(n))
+		}
+	}
+	for k, v := range w.extra {
+		if strings.Contains(s, k) {
+			s = strings.ReplaceAll(s, k, v)
 		}
 	}
 	if strings.Contains(s, "$P0") {
@@ -448,8 +513,30 @@ func isHex(s string) bool {
 }
 
 // canon replaces 0x-prefixed 40-hex addresses by their names and 64-hex hashes by '#'.
+// Keys of the contracts are spelling sensitive; the records of a party are the ones under the checksummed
+// spelling (what CurrentCaller()/Address.String() yield).  An address in that spelling becomes "$NAME", the same
+// 20 bytes in another spelling "$NAME~alt" (0x-prefixed) or "$NAME~bare" (no prefix).
 func (w *world) canon(s string) string {
 	var b strings.Builder
+	name := func(hexpart string, prefixed bool) (string, bool) {
+		n, ok := w.names[strings.ToLower(hexpart)]
+		if !ok {
+			return "", false
+		}
+		exact := ""
+		if strings.HasPrefix(n, "@") {
+			exact = contractAddrs[n[1:]].Address().String()
+		} else {
+			exact = w.addr(n)
+		}
+		switch {
+		case prefixed && "0x"+hexpart == exact:
+			return n, true
+		case prefixed:
+			return n + "~alt", true
+		}
+		return n + "~bare", true
+	}
 	for i := 0; i < len(s); {
 		if s[i] == '0' && i+1 < len(s) && (s[i+1] == 'x' || s[i+1] == 'X') {
 			if i+66 <= len(s) && isHex(s[i+2:i+66]) {
@@ -458,12 +545,19 @@ func (w *world) canon(s string) string {
 				continue
 			}
 			if i+42 <= len(s) && isHex(s[i+2:i+42]) {
-				if n, ok := w.names[strings.ToLower(s[i+2:i+42])]; ok {
+				if n, ok := name(s[i+2:i+42], s[i+1] == 'x'); ok {
 					b.WriteString(n)
 				} else {
 					b.WriteString("0x?")
 				}
 				i += 42
+				continue
+			}
+		}
+		if i+40 <= len(s) && isHex(s[i:i+40]) && (i == 0 || !isHex(s[i-1:i])) && (i+40 == len(s) || !isHex(s[i+40:i+41])) {
+			if n, ok := name(s[i:i+40], false); ok {
+				b.WriteString(n)
+				i += 40
 				continue
 			}
 		}
@@ -610,6 +704,7 @@ func (w *world) doCall(cs *callSpec) callOut {
 		out.Err = "bad_role"
 		return out
 	}
+	w.self = roleNames[cs.Role]
 	var args []*pb.Arg
 	for _, a := range cs.Args {
 		pa, err := w.buildArg(a)
